@@ -1,4 +1,7 @@
 import HpxVerif.Model.Layer
+import HpxVerif.Lemmas.RingBij5
+import HpxVerif.Lemmas.RingBij6
+import HpxVerif.Lemmas.LayerBmi
 import Mathlib.Tactic.Ring
 import Mathlib.Tactic.Linarith
 
@@ -12,8 +15,11 @@ Proved so far:
 * `north_cap_roundtrip`: on the north polar cap, `to_ring ∘ from_ring = id` at the level of ring coordinates, for every
   `nside` (not only powers of two) — linear arithmetic once the ring index is exact;
 * small-depth exhaustive evaluation in the kernel (a *test*, labelled as such).
-Open statements: `from_ring_to_ring`, `to_ring_from_ring` for all depths (equatorial region and south cap),
-`ring_order`, `ring_center_agrees`.
+**For every depth** (second half of this file): `to_ring_bijective` (valid parts ↔ `[0, 12·4^d)`), `from_ring_inverse`,
+`ring_order` (RING numbers follow decreasing latitude then increasing longitude of the centres), and on cell numbers
+`ring_bijection` for depths ≤ 29, LUT and BMI2 builds, under the hypothesis that the `f64` square-root estimate is within
+4 of the exact ring index (the correction loops do the rest).  Open: `ring_center_agrees` (RING-scheme centre = NESTED
+centre for `nside = 2^d`), the square-root hypothesis itself.
 -/
 
 namespace Hpx.C10
@@ -84,5 +90,73 @@ theorem f64_estimate_off_by_one :
     polarRingApprox 9007199120523263 = 67108863 ∧ tri4 67108863 > 9007199120523263 ∧
     polarRingIndexFrom 4 9007199120523263 (polarRingApprox 9007199120523263) = 67108862 ∧
     tri4 67108862 ≤ 9007199120523263 := by decide +kernel
+
+/-! ## the bijection and the RING order, for every depth -/
+
+open Hpx.RingBij
+
+/-- **at the level of parts `(d0h, i, j)`, for EVERY depth**: `to_ring` maps the valid parts bijectively onto
+    `[0, 12·4^d)` (total and in range, injective, surjective) — pure integer arithmetic in the three regions, the
+    `d0h = 4 ∧ l < 0` wrap included -/
+theorem to_ring_bijective (d : Nat) :
+    (∀ p, Valid d p → ∃ r, toRingParts d p = some r ∧ r < 12 * 4 ^ d) ∧
+    (∀ p q, Valid d p → Valid d q → toRingParts d p = toRingParts d q → p = q) ∧
+    (∀ r, r < 12 * 4 ^ d → ∃ p, Valid d p ∧ toRingParts d p = some r) := toRingParts_bijective d
+
+/-- **`from_ring` is its inverse** (`d ≤ 32`: beyond, the `u32` casts of `from_ring` truncate — see
+    `from_ring_truncates_at_depth_33`), for any exact ring-index function -/
+theorem from_ring_inverse (d : Nat) (RI : Nat → Nat) (hRI : ExactRI RI) (hd : d ≤ 32) :
+    (∀ p, Valid d p → ∀ r, toRingParts d p = some r → fromRingParts d RI r = some p) ∧
+    (∀ r, r < 12 * 4 ^ d → ∃ p, fromRingParts d RI r = some p ∧ Valid d p ∧ toRingParts d p = some r) :=
+  ⟨fun p hv r hr => fromRing_toRing_parts d RI hRI hd p hv r hr, fun r hr => toRing_fromRing_parts d RI hRI hd r hr⟩
+
+/-- **`ring_order`, every depth**: RING numbers increase exactly along (latitude decreasing, then abscissa increasing)
+    of the cell centres — rings by non-increasing latitude, increasing longitude in `[0, 2π)` inside a ring -/
+theorem ring_order (d : Nat) (p q : HashParts) (hp : Valid d p) (hq : Valid d q) (rp rq : Nat)
+    (h1 : toRingParts d p = some rp) (h2 : toRingParts d q = some rq) :
+    rp < rq ↔ ((centerXY d p).2 > (centerXY d q).2 ∨
+      ((centerXY d p).2 = (centerXY d q).2 ∧ (centerXY d p).1 < (centerXY d q).1)) :=
+  ring_order_parts d p q hp hq rp rq h1 h2
+
+/-- **on cell numbers, every depth `≤ 29`, LUT and BMI2 builds**: `to_ring` and `from_ring` (with the ring index the code
+    really uses: float estimate + the integer correction loops) are inverse bijections of `[0, 12·4^d)`.
+    Hypothesis `ApproxOK (2^60)`: the `f64` square-root estimate is within 4 of the exact ring index for arguments below
+    `2^60` — a fact about IEEE `sqrt` that is not proved here (kernel-checked up to depth 3: `approxOK_depth3`; the
+    estimate is compared bit for bit with the hardware on ring-boundary classes of all depths on every run). -/
+theorem ring_bijection (cfg : Cfg) (d : Nat) (hd : d ≤ 29) (hA : ApproxOK (2 ^ 60)) :
+    (∀ h, h < 12 * 4 ^ d → ∃ r, toRing cfg d h = some r ∧ r < 12 * 4 ^ d ∧ fromRing cfg d r = some h) ∧
+    (∀ r, r < 12 * 4 ^ d → ∃ h, fromRing cfg d r = some h ∧ h < 12 * 4 ^ d ∧ toRing cfg d h = some r) := by
+  have h := Hpx.RingBij.ring_bijection (LayerBmi.noBmi cfg) (LayerBmi.noBmi_bmi cfg) d hd hA
+  constructor
+  · intro x hx
+    obtain ⟨r, h1, h2, h3⟩ := h.1 x hx
+    exact ⟨r, by rw [LayerBmi.toRing_eq]; exact h1, h2, by rw [LayerBmi.fromRing_eq]; exact h3⟩
+  · intro r hr
+    obtain ⟨x, h1, h2, h3⟩ := h.2 r hr
+    exact ⟨x, by rw [LayerBmi.fromRing_eq]; exact h1, h2, by rw [LayerBmi.toRing_eq]; exact h3⟩
+
+/-- cell numbers are exactly `d0h·4^d + interleave i j` of valid parts, both ways (`decode_hash`, `build_hash`) -/
+theorem decode_build_inverse (cfg : Cfg) (d : Nat) (hd : d ≤ 29) :
+    (∀ p, Valid d p → buildHashFromParts cfg d p.d0h p.i p.j = some (p.d0h * 4 ^ d + interleave p.i p.j) ∧
+      p.d0h * 4 ^ d + interleave p.i p.j < 12 * 4 ^ d ∧
+      decodeHash cfg d (p.d0h * 4 ^ d + interleave p.i p.j) = some p) ∧
+    (∀ h, h < 12 * 4 ^ d → ∃ p, decodeHash cfg d h = some p ∧ Valid d p ∧ h = p.d0h * 4 ^ d + interleave p.i p.j) := by
+  constructor
+  · intro p hv
+    have b := build_spec (LayerBmi.noBmi cfg) (LayerBmi.noBmi_bmi cfg) d hd p hv
+    have c := decode_build (LayerBmi.noBmi cfg) (LayerBmi.noBmi_bmi cfg) d hd p hv
+    exact ⟨by rw [LayerBmi.buildHashFromParts_eq]; exact b.1, b.2, by rw [LayerBmi.decodeHash_eq]; exact c⟩
+  · intro h hh
+    obtain ⟨p, h1, h2, h3⟩ := decode_spec (LayerBmi.noBmi cfg) (LayerBmi.noBmi_bmi cfg) d hd h hh
+    exact ⟨p, by rw [LayerBmi.decodeHash_eq]; exact h1, h2, h3⟩
+
+/-- the depth bound of `from_ring_inverse` is sharp: at depth 33 the `u32` casts lose a bit (no such depth exists in the
+    crate, `DEPTH_MAX = 29`) -/
+theorem from_ring_truncates_at_depth_33 :
+    Valid 33 ⟨0, 2 ^ 33 - 1, 2 ^ 33 - 1⟩ ∧ toRingParts 33 ⟨0, 2 ^ 33 - 1, 2 ^ 33 - 1⟩ = some 0 ∧
+    fromRingParts 33 exactRI 0 = some ⟨0, 2 ^ 32 - 1, 2 ^ 32 - 1⟩ := fromRing_toRing_parts_fails_at_depth_33
+
+/-- non-vacuity of the square-root hypothesis at small arguments, and of the bijection -/
+example : ApproxOK (firstHashInEqr 3) := approxOK_depth3
 
 end Hpx.C10
